@@ -23,7 +23,17 @@ RULE = ("seeded random YAML files (plus a fixed corpus) mixing plaintext scalars
         "blanks (also with the line break inside the marker), near-miss markers, values under a foreign key, plaintexts "
         "with trailing blanks or looking encrypted, plaintexts that BEGIN with blanks, a tab or empty lines (indented "
         "snippets, padded passphrases; loss of leading white space has its own signature, apart from the known loss of "
-        "trailing white space); the real eyaml_rotate_keys.main() runs with --backup and "
+        "trailing white space), plaintexts with CR LF or a lone CR in their interior (certificates / keys / scripts with Windows or "
+        "old-Mac line endings, in string and block layouts, bare and anchored+aliased: the plaintext under the new key is compared "
+        "EXACTLY, character by character, by the harness's own reference cipher on the loaded document - no pipe, no line-ending "
+        "normalisation; signature plaintext-carriage-return-changed), values that BEGIN with the marker but hold no well-formed "
+        "token (closing bracket lost / replaced, truncated, tail overwritten) in every layout - one line, folded, literal, "
+        "double-quoted with blanks / continued over several lines, padded - alone in the file, beside an ordinary secret, anchored "
+        "and aliased: the stand-in, like hiera-eyaml, prints such input back unchanged with status 0 (a well-formed token under a "
+        "foreign key or with a corrupt body: status 1), and is byte-exact on input and output; clause judged: when the run exits 0 "
+        "EVERY value treated as encrypted (marker rule) decrypts under the new keys - a value that decrypted under neither the old "
+        "keys before nor the new keys after a run that exits 0 is success-with-undecryptable (a non-zero status claims nothing); "
+        "the real eyaml_rotate_keys.main() runs with --backup and "
         "harness/tools/fake_eyaml on ONE file, or on 2-3 files in one invocation whose secrets carry the same anchor names "
         "(every file judged by itself).  Direct check when the exit status is 0: every encrypted value of every file "
         "decrypts under the new key to its old plaintext and no longer under the old key, is still an encrypted value, "
@@ -90,6 +100,11 @@ def lead(s):
     return s[:len(s) - len(s.lstrip())]
 
 
+def eol(s):
+    """`s` with every line ending written as LF (only to NAME a difference; equality of plaintexts is judged on the exact text)"""
+    return s.replace("\r\n", "\n").replace("\r", "\n")
+
+
 def is_marker(s):
     """the property's rule, written independently of the code under test"""
     return isinstance(s, str) and "".join(ch for ch in s if ch not in " \n")[:4] == "ENC["
@@ -106,6 +121,29 @@ PLAINTEXTS += LEADING_PLAINTEXTS[:5]
 ODD_PLAINTEXTS = ["trailing blank ", "trailing newline\n", enc("k1", "inner"), "   ", "  padded both ends  ", "\nlines around\n"]
 NEAR = ["ENC", "enc[FAKE,k1,00]", "XENC[FAKE,k1,00]", "ENC(FAKE)", "E-N-C-[", "[ENC[", "plain text", ""]
 BROKEN = ["ENC[x", "E N C [ garbage", "ENC[FAKE,k9,6869]", "ENC[PKCS7,Zm9v]", "ENC[FAKE,k1,zz]"]
+# plaintexts with a carriage return in their INTERIOR (Windows / old-Mac line endings of certificates, keys, scripts);
+# none ends in white space (that is the known C19-F1)
+CR_PLAINTEXTS = ["line1\r\nline2", "-----BEGIN CERTIFICATE-----\r\nMIIBszCCAVmgAwIBAgIU\r\nq8fPz0n=\r\n-----END CERTIFICATE-----",
+                 "a\rb", "old\rmac\rline endings", "mixed\r\nkinds\nof\rbreaks", "user=joe\r\npass=x\r\n\r\n[end]",
+                 "\r\nbegins with CR LF", "cr\r\r\ntwice"]
+PLAINTEXTS += CR_PLAINTEXTS[:4]
+
+
+def malformed(pt, how):
+    """a value that begins with the marker but holds NO well-formed token (eyaml prints such text back unchanged, status 0)"""
+    c = enc(OLD, pt)
+    if how == "no-bracket":
+        return c[:-1]
+    if how == "truncated":
+        return c[:max(8, len(c) * 2 // 3)]
+    if how == "bracket-replaced":
+        return c[:-1] + ")"
+    return c[:-1] + "=="        # "tail-lost": the end of the token was overwritten
+
+
+MALFORMED_HOW = ("no-bracket", "truncated", "bracket-replaced", "tail-lost")
+# layouts in which the node text differs from its white-space-free form (and "plain", where it does not)
+SPREAD = ("folded", "literal", "quoted-blanks", "quoted-lead", "quoted-pad", "literal-deep", "folded-deep", "quoted-lines")
 
 
 PADDED = ("quoted-pad", "literal-deep", "folded-deep")
@@ -135,7 +173,7 @@ class Gen:
         pt = r.choice(ODD_PLAINTEXTS) if r.random() < self.odd else r.choice(PLAINTEXTS)
         c = enc(OLD, pt)
         layout = r.choice(["plain", "plain", "plain", "folded", "folded", "literal", "quoted-blanks", "quoted-lead",
-                           "quoted-pad", "literal-deep", "folded-deep"])
+                           "quoted-pad", "literal-deep", "folded-deep", "quoted-lines"])
         anchor = None
         if r.random() < self.p_anchor:
             self.n_anchor += 1
@@ -156,7 +194,12 @@ class Gen:
         if x < p_secret + 0.16:
             return ("leaf", None, ("str", r.choice(NEAR)))
         if x < p_secret + 0.16 + self.odd * 0.3:
-            return ("leaf", None, ("secret", "plain", r.choice(BROKEN)))
+            # a value that looks encrypted but is not a decryptable token, in any layout
+            c = r.choice(BROKEN) if r.random() < 0.4 else malformed(r.choice(PLAINTEXTS), r.choice(MALFORMED_HOW))
+            layout = r.choice(("plain",) + SPREAD)
+            if layout in PADDED:
+                return ("leaf", None, ("secret", layout, c, white(r, r.randint(0, 12), layout)))
+            return ("leaf", None, ("secret", layout, c))
         k = r.choice(["int", "str", "bool", "null", "str"])
         if k == "int":
             return ("leaf", None, ("int", r.randint(-5, 99)))
@@ -227,6 +270,12 @@ def scalar_text(val, indent):
         return (">" if layout == "folded" else "|"), [pad + p for p in parts]
     if layout == "quoted-blanks":
         return json.dumps(c.replace(",", ", ")), []
+    if layout == "quoted-lines":
+        # a double-quoted scalar continued over several lines (the line breaks fold into blanks)
+        parts = [c[i:i + 30] for i in range(0, len(c), 30)]
+        if len(parts) < 2:
+            parts = [c[:6], c[6:]] if len(c) > 6 else [c, ""]
+        return '"' + parts[0], [pad + p for p in parts[1:-1]] + [pad + parts[-1] + '"']
     return json.dumps("  " + c), []
 
 
@@ -297,6 +346,37 @@ CORPUS += ["f: >\n  %s\n  %s\nl:\n  - %s\n" % (enc(OLD, pt)[:18], enc(OLD, pt)[1
 CORPUS += ["a: %s\n" % enc(OLD, pt) for pt in ODD_PLAINTEXTS[4:]]
 
 
+# secrets whose plaintext holds CR LF / CR: string and block layouts, bare, anchored + aliased
+CR_CORPUS = ["cert: %s\nblock: >\n  %s\n  %s\nshared: &c %s\nuse: *c\nn: 1\n" % (
+    enc(OLD, CR_PLAINTEXTS[i]), enc(OLD, CR_PLAINTEXTS[i + 1])[:24], enc(OLD, CR_PLAINTEXTS[i + 1])[24:], enc(OLD, CR_PLAINTEXTS[(i + 2) % 8]))
+    for i in (0, 2, 4, 6)]
+CR_CORPUS += ["- %s\n- |\n  %s\n  %s\n" % (enc(OLD, CR_PLAINTEXTS[5]), enc(OLD, CR_PLAINTEXTS[1])[:30], enc(OLD, CR_PLAINTEXTS[1])[30:])]
+
+
+def malformed_corpus(tier):
+    """a value that begins with the marker, holds no well-formed token (closing bracket lost, truncated, ...) and is
+    laid out in every way (one line, folded, literal, quoted with blanks / over several lines, padded): alone in the
+    file, next to an ordinary secret, anchored and aliased"""
+    out = []
+    r = random.Random(1919)
+    pts = ["hello", "a longer secret that makes the token wrap around in a block", "x"]
+    n = 0
+    for how in MALFORMED_HOW:
+        for layout in ("plain",) + SPREAD:
+            for pt in (pts if tier != "quick" else [pts[n % len(pts)]]):
+                n += 1
+                c = malformed(pt, how)
+                val = ("secret", layout, c, white(r, r.randint(0, 9), layout)) if layout in PADDED else ("secret", layout, c)
+                anchored = n % 3 == 0
+                with_good = ("map", None, [("good", ("leaf", None, ("secret", "plain", enc(OLD, "ordinary")))),
+                                           ("bad", ("leaf", "m" if anchored else None, val)),
+                                           ("again", ("alias", "m") if anchored else ("leaf", None, ("int", n)))])
+                out.append({"text": doc_text(with_good), "src": "malformed"})
+                alone = ("seq", None, [("leaf", None, ("str", "plain")), ("leaf", None, val)]) if n % 2 else ("map", None, [("only", ("leaf", None, val))])
+                out.append({"text": doc_text(alone), "src": "malformed"})
+    return out
+
+
 def padded_corpus(tier):
     """one secret after k = 0..MAXPAD blanks / line breaks (in front of and inside the marker) in every padded layout,
     next to an ordinary secret (so that the file is rewritten whatever happens to the padded one)"""
@@ -324,6 +404,8 @@ MULTI_CORPUS = [
 def gen_cases(chk, n, n_multi):
     cases = [{"text": t, "src": "corpus"} for t in CORPUS]
     cases += padded_corpus(chk.tier)
+    cases += malformed_corpus(chk.tier)
+    cases += [{"text": t, "src": "cr"} for t in CR_CORPUS]
     # several files in ONE invocation, the same anchor names on secrets of different files
     cases += [{"texts": [CORPUS[i] for i in grp], "src": "multi-corpus"} for grp in MULTI_CORPUS]
     rng = random.Random(chk.seed)
@@ -615,7 +697,11 @@ def direct_check(f, rc, mix=None):
             bad.append(("root-scalar-secret-not-rotated", "a document that is one (undecryptable) encrypted scalar: exit 0, untouched"))
             continue
         if p_old is None:
-            bad.append(("success-with-undecryptable", "exit 0 although %r does not decrypt under the old key" % (addr,)))
+            # the run SUCCEEDED, so every value treated as encrypted has to decrypt under the new keys now
+            v2 = l2.get("v") if l2 and l2.get("k") == "str" else None
+            bad.append(("success-with-undecryptable", "exit 0 although the value at %r, treated as encrypted (%r), does not decrypt under the "
+                        "old key; after the run it is %r, which under the new key gives %r" % (
+                            addr, l["v"], v2, dec_new(mix, v2) if v2 is not None else None)))
             continue
         p_new = dec_new(mix, l2["v"]) if l2 and l2.get("k") == "str" else None
         still_old = dec(OLD, l2["v"]) if l2 and l2.get("k") == "str" else None
@@ -624,6 +710,9 @@ def direct_check(f, rc, mix=None):
                 sig = "root-scalar-secret-not-rotated"
             elif mixed:
                 sig = "secret-not-rekeyed:" + MIX_SIG[mix]
+            elif p_new is not None and still_old is None and "\r" in p_old and p_new != p_old and eol(p_new) == eol(p_old):
+                # re-keyed, but CR LF / CR inside the plaintext became something else
+                sig = "plaintext-carriage-return-changed"
             elif p_new is not None and still_old is None and lead(p_new) != lead(p_old) and p_new.lstrip() == p_old.lstrip()[:len(p_new.lstrip())]:
                 # re-keyed, but the plaintext no longer begins with the white space it began with
                 sig = "plaintext-leading-whitespace-lost"
